@@ -232,3 +232,66 @@ Qed.
 Corollary schedule_length_bound sched cf cf' : exec cf sched = Some cf' ->
   Z.of_nat (length sched) <= measure cf.
 Proof. intros H. pose proof (canread_terminates sched cf cf' H). pose proof (measure_nonneg cf'). lia. Qed.
+
+(* ------------------------------------------------------------------ solo progress *)
+(* once the other threads stop, a thread completes its current request within three of its
+   own steps (failed CAS on a stale value, Load, successful CAS) *)
+Definition completes (cf : cconf) (tid : nat) (th : thread) (sz : Z) (rest : list Z) (n : nat) : Prop :=
+  exists cf' th' ok, exec cf (repeat tid n) = Some cf' /\ nth_error (c_threads cf') tid = Some th' /\
+                     t_pending th' = rest /\ t_done th' = (sz, ok) :: t_done th.
+
+Lemma nth_error_lt {A} (l : list A) n x : nth_error l n = Some x -> (n < length l)%nat.
+Proof. intros H. apply nth_error_Some. congruence. Qed.
+
+Lemma solo_fresh cf tid th sz rest : nth_error (c_threads cf) tid = Some th ->
+  t_pending th = sz :: rest -> t_pc th = Loaded (c_rlimit cf) -> completes cf tid th sz rest 1.
+Proof.
+  intros En Ep Hpc. unfold completes. cbn [repeat exec]. unfold cstep. rewrite En, Ep, Hpc.
+  destruct (canRead (c_rlimit cf) sz) as [ok new]. rewrite Z.eqb_refl.
+  eexists. eexists. exists ok. split; [reflexivity|]. cbn [c_threads].
+  rewrite nth_error_upd_same by (eapply nth_error_lt; eassumption). repeat split.
+Qed.
+
+Lemma solo_idle cf tid th sz rest : nth_error (c_threads cf) tid = Some th ->
+  t_pending th = sz :: rest -> t_pc th = Idle -> completes cf tid th sz rest 2.
+Proof.
+  intros En Ep Hpc. unfold completes. cbn [repeat exec]. unfold cstep at 1. rewrite En, Ep, Hpc.
+  set (cf1 := mkCC _ _).
+  destruct (solo_fresh cf1 tid (mkTh (Loaded (c_rlimit cf)) (sz :: rest) (t_done th)) sz rest) as (cf' & th' & ok & H1 & H2 & H3 & H4).
+  - subst cf1. cbn [c_threads]. apply nth_error_upd_same. eapply nth_error_lt; eassumption.
+  - reflexivity.
+  - reflexivity.
+  - cbn [repeat exec] in H1. exists cf', th', ok. repeat split; assumption.
+Qed.
+
+Lemma solo_stale cf tid th sz rest curr : nth_error (c_threads cf) tid = Some th ->
+  t_pending th = sz :: rest -> t_pc th = Loaded curr -> curr <> c_rlimit cf -> completes cf tid th sz rest 3.
+Proof.
+  intros En Ep Hpc Hne. unfold completes. cbn [repeat exec]. unfold cstep at 1. rewrite En, Ep, Hpc.
+  destruct (canRead curr sz) as [ok0 new0]. destruct (c_rlimit cf =? curr) eqn:E; [lia|].
+  set (cf1 := mkCC _ _).
+  destruct (solo_idle cf1 tid (mkTh Idle (sz :: rest) (t_done th)) sz rest) as (cf' & th' & ok & H1 & H2 & H3 & H4).
+  - subst cf1. cbn [c_threads]. apply nth_error_upd_same. eapply nth_error_lt; eassumption.
+  - reflexivity.
+  - reflexivity.
+  - cbn [repeat exec] in H1. exists cf', th', ok. repeat split; assumption.
+Qed.
+
+Theorem solo_progress cf tid th sz rest : nth_error (c_threads cf) tid = Some th ->
+  t_pending th = sz :: rest -> exists n, (n <= 3)%nat /\ completes cf tid th sz rest n.
+Proof.
+  intros En Ep. destruct (t_pc th) as [|curr] eqn:Hpc.
+  - exists 2%nat. split; [lia|]. apply solo_idle; assumption.
+  - destruct (Z.eq_dec curr (c_rlimit cf)) as [->|Hne].
+    + exists 1%nat. split; [lia|]. apply solo_fresh; assumption.
+    + exists 3%nat. split; [lia|]. eapply solo_stale; eassumption.
+Qed.
+
+(* non-vacuity: three threads, one schedule with a failed CAS; the invariant instance *)
+Example conc_example :
+  let cf0 := cinit 20 [[8; 8]; [8]; [16]] in
+  match exec cf0 [0; 1; 1; 0; 0; 0; 2; 2; 0; 0]%nat with
+  | Some cf => c_rlimit cf = 0 /\ granted cf = 16 /\ nrefused cf = 2 /\ npending cf = 0
+  | None => False
+  end.
+Proof. vm_compute. repeat split. Qed.
